@@ -1,113 +1,9 @@
 // t_select.cpp - C07: blend/keep/clear/set_bits, min/max/minmax/clamp, abs/neg_abs/negate, average, midpoint, copysign.
-#include "vx_explore.hpp"
+
+#include "ops_select.hpp"
 
 namespace vx {
-
-typedef __int128 i128;
-
-template<class S> inline unsigned nbits() { return 8 * sizeof(S); }
-template<class S> inline std::uint64_t trunc_bits(i128 v) { return std::uint64_t(v) & low_mask(nbits<S>()); }
-
-// mask built from the raw representation (independent of AVEL's mask constructors): lane set iff c's lane is non-zero bits
-template<class V>
-inline typename V::mask mk(V c) {
-    typename V::scalar tmp[V::width];
-    to_lanes(c, tmp);
-    std::uint8_t b[V::width];
-    for (unsigned i = 0; i < V::width; ++i) b[i] = bits_of(tmp[i]) != 0;
-    return make_mask<typename V::mask>(b);
-}
-template<class S> inline bool mk(Sc<S> c) { return bits_of(c.v) != 0; }
-
-template<class A> inline typename A::value_type at0(const A& arr) { return arr[0]; }
-template<class A> inline typename A::value_type at1(const A& arr) { return arr[1]; }
-
-template<class S, bool FLT = std::is_floating_point<S>::value> struct M;
-
-template<class S> struct M<S, false> {
-    static i128 val(S a) { return i128(a); }  // mathematical value under the type's signedness
-    static bool lt(S a, S b) { return a < b; }
-    static std::uint64_t min(S a, S b) { return bits_of(b < a ? b : a); }
-    static std::uint64_t max(S a, S b) { return bits_of(a < b ? b : a); }
-    static std::uint64_t clamp(S x, S lo, S hi) { return bits_of(x < lo ? lo : (hi < x ? hi : x)); }
-    static std::uint64_t abs(S a) { i128 v = val(a); return trunc_bits<S>(v < 0 ? -v : v); }
-    static std::uint64_t neg_abs(S a) { i128 v = val(a); return trunc_bits<S>(v < 0 ? v : -v); }
-    static std::uint64_t negate(bool m, S a) { i128 v = val(a); return trunc_bits<S>(m ? -v : v); }
-    static std::uint64_t average(S a, S b) { return trunc_bits<S>((val(a) + val(b)) / 2); }
-    static std::uint64_t midpoint(S a, S b) {
-        i128 x = val(a), y = val(b);
-        return trunc_bits<S>(x <= y ? x + (y - x) / 2 : x - (x - y) / 2);
-    }
-    static bool ok(S) { return true; }
-    static bool same_value(std::uint64_t e, std::uint64_t g) { return e == g; }
-    static bool nt2(S a, S b) {
-        std::uint64_t top = 1ull << (nbits<S>() - 1);
-        i128 s = val(a) + val(b);
-        bool odd = (s & 1) != 0;
-        bool out = std::is_signed<S>::value ? (s < -i128(top) || s >= i128(top)) : (s >= (i128(1) << nbits<S>()));
-        return odd || out || bits_of(a) == top || bits_of(b) == top;
-    }
-};
-
-template<class S> struct M<S, true> {
-    typedef typename uint_of<S>::type U;
-    static const U SIGN = U(1) << (8 * sizeof(S) - 1);
-    static bool lt(S a, S b) { return a < b; }
-    static std::uint64_t min(S a, S b) { return bits_of(b < a ? b : a); }
-    static std::uint64_t max(S a, S b) { return bits_of(a < b ? b : a); }
-    static std::uint64_t clamp(S x, S lo, S hi) { return bits_of(x < lo ? lo : (hi < x ? hi : x)); }
-    static std::uint64_t abs(S a) { return bits_of(a) & ~std::uint64_t(SIGN); }
-    static std::uint64_t neg_abs(S a) { return bits_of(a) | SIGN; }
-    static std::uint64_t negate(bool m, S a) { return m ? (bits_of(a) ^ SIGN) : bits_of(a); }
-    static bool ok(S a) { return a == a; }  // not NaN
-    static bool same_value(std::uint64_t e, std::uint64_t g) {
-        U ue = U(e), ug = U(g);
-        S fe, fg;
-        std::memcpy(&fe, &ue, sizeof fe);
-        std::memcpy(&fg, &ug, sizeof fg);
-        return fe == fg;  // +0 and -0 are the same number
-    }
-    static bool nt2(S a, S b) { return a == S(0) || b == S(0) || std::signbit(a) != std::signbit(b) || std::isinf(a) || std::isinf(b) || a == b; }
-};
-
-#define VX_SEL_OP(NAME, ARITY, EXPR, MODEL, DOMAIN, NT, SAME)                                    \
-    struct NAME : OpBase {                                                                       \
-        static const int arity = ARITY;                                                          \
-        static const char* name() { return #NAME; }                                              \
-        template<class V> static auto apply(V a, V b, V c) VX_AUTO(EXPR)                         \
-        template<class S> static std::uint64_t model(S a, S b, S c) { (void)a; (void)b; (void)c; return MODEL; } \
-        template<class S> static bool in_domain(S a, S b, S c) { (void)a; (void)b; (void)c; return DOMAIN; } \
-        template<class S> static bool nontrivial(S a, S b, S c) { (void)a; (void)b; (void)c; return NT; } \
-        template<class S> static bool same(std::uint64_t e, std::uint64_t g) { return SAME; }    \
-    };
-
-#define BITS_EQ (e == g)
-#define VALUE_EQ (M<S>::same_value(e, g))
-#define MASKNT (bits_of(c) != 0 || bits_of(a) != bits_of(b))
-
-VX_SEL_OP(blend,      3, avel::blend(mk(c), un(a), un(b)),  (bits_of(c) != 0 ? bits_of(a) : bits_of(b)), true, MASKNT, BITS_EQ)
-VX_SEL_OP(keep,       3, avel::keep(mk(c), un(a)),          (bits_of(c) != 0 ? bits_of(a) : 0),          true, MASKNT, BITS_EQ)
-VX_SEL_OP(clear,      3, avel::clear(mk(c), un(a)),         (bits_of(c) != 0 ? 0 : bits_of(a)),          true, MASKNT, BITS_EQ)
-VX_SEL_OP(negate,     3, avel::negate(mk(c), un(a)),        M<S>::negate(bits_of(c) != 0, a),            true, MASKNT, BITS_EQ)
-VX_SEL_OP(min,        2, avel::min(un(a), un(b)),           M<S>::min(a, b),  M<S>::ok(a) && M<S>::ok(b), M<S>::nt2(a, b), VALUE_EQ)
-VX_SEL_OP(max,        2, avel::max(un(a), un(b)),           M<S>::max(a, b),  M<S>::ok(a) && M<S>::ok(b), M<S>::nt2(a, b), VALUE_EQ)
-VX_SEL_OP(minmax_lo,  2, at0(avel::minmax(un(a), un(b))),     M<S>::min(a, b),  M<S>::ok(a) && M<S>::ok(b), M<S>::nt2(a, b), VALUE_EQ)
-VX_SEL_OP(minmax_hi,  2, at1(avel::minmax(un(a), un(b))),     M<S>::max(a, b),  M<S>::ok(a) && M<S>::ok(b), M<S>::nt2(a, b), VALUE_EQ)
-VX_SEL_OP(clamp,      3, avel::clamp(un(a), un(b), un(c)),  M<S>::clamp(a, b, c), M<S>::ok(a) && M<S>::ok(b) && M<S>::ok(c) && M<S>::lt(b, c), (M<S>::lt(a, b) || M<S>::lt(c, a)), VALUE_EQ)
-VX_SEL_OP(abs,        1, avel::abs(un(a)),                  M<S>::abs(a),     true, true, BITS_EQ)
-VX_SEL_OP(neg_abs,    1, avel::neg_abs(un(a)),              M<S>::neg_abs(a), true, true, BITS_EQ)
-VX_SEL_OP(average,    2, avel::average(un(a), un(b)),       M<S>::average(a, b),  true, M<S>::nt2(a, b), BITS_EQ)
-VX_SEL_OP(midpoint,   2, avel::midpoint(un(a), un(b)),      M<S>::midpoint(a, b), true, M<S>::nt2(a, b), BITS_EQ)
-VX_SEL_OP(copysign,   2, avel::copysign(un(a), un(b)),      ((bits_of(a) & ~std::uint64_t(M<S>::SIGN)) | (bits_of(b) & M<S>::SIGN)), true, true, BITS_EQ)
-
-// set_bits(mask): all-ones / zero. The scalar form is the template set_bits<T>(bool).
-template<class V> inline auto sb(V c) VX_AUTO(avel::set_bits(mk(c)))
-template<class S> inline S sb(Sc<S> c) { return avel::set_bits<S>(mk(c)); }
-VX_SEL_OP(set_bits,   1, sb(a),                             (bits_of(a) != 0 ? low_mask(nbits<S>()) : 0), true, true, BITS_EQ)
-// Vector(mask): 1 / 0 (1.0 / 0.0)
-template<class V> inline V from_mask(V c) { return V(mk(c)); }
-template<class S> inline S from_mask(Sc<S> c) { return S(mk(c)); }
-VX_SEL_OP(vector_from_mask, 1, from_mask(a),                bits_of(S(bits_of(a) != 0 ? 1 : 0)), true, true, BITS_EQ)
+using namespace osel;
 
 template<class V, bool FLT = std::is_floating_point<typename V::scalar>::value>
 struct Ops {
